@@ -272,6 +272,8 @@ func c06Run(r *core.Run) {
 		s.NeighbourNoise(deliveries[0])
 	case 2:
 		s.WarmUpThenReconfigure(deliveries[0])
+	case 3:
+		OtherAPICalls(r, s.Node.SP, 7)
 	}
 	for di, enc := range deliveries {
 		if di == 1 && perturb == 3 {
